@@ -1,4 +1,5 @@
 import PoolProofs.C08Lemmas
+import PoolProofs.C08I3Lemmas
 /-!
 # C08 — the stored account always matches a real output; lifecycle moves are legal
 
@@ -310,6 +311,69 @@ theorem C08_I2_resume_adequate (s : State) :
   cases s <;> decide
 
 /-! ## I3 — the store write precedes the publication -/
+
+/-- what the scan `chk` means: wherever a `publish t` occurs in the trace, an earlier effect is the store
+write of a record whose latest transaction is `t` -/
+theorem chk_spec (w : List Tx) (l : List Effect) (h : chk w l = true) (l1 l2 : List Effect) (t : Tx)
+    (hl : l = l1 ++ Effect.publish t :: l2) : t ∈ w ∨ ∃ a, Effect.write a ∈ l1 ∧ a.latestTx = some t := by
+  induction l1 generalizing w l with
+  | nil =>
+    subst hl
+    simp [chk] at h
+    exact Or.inl h.1
+  | cons e l1 ih =>
+    subst hl
+    cases e with
+    | write a =>
+      simp only [List.cons_append, chk] at h
+      rcases ih _ _ h rfl with hw | ⟨b, hb, hbt⟩
+      · simp only [List.mem_append, Option.mem_toList] at hw
+        rcases hw with hw | hw
+        · exact Or.inr ⟨a, List.mem_cons_self, hw⟩
+        · exact Or.inl hw
+      · exact Or.inr ⟨b, List.mem_cons_of_mem _ hb, hbt⟩
+    | publish t' =>
+      simp only [List.cons_append, chk, Bool.and_eq_true] at h
+      rcases ih _ _ h.2 rfl with hw | ⟨b, hb, hbt⟩
+      · exact Or.inl hw
+      · exact Or.inr ⟨b, List.mem_cons_of_mem _ hb, hbt⟩
+    | fund o =>
+      simp only [List.cons_append, chk] at h
+      rcases ih _ _ h rfl with hw | ⟨b, hb, hbt⟩
+      · exact Or.inl hw
+      · exact Or.inr ⟨b, List.mem_cons_of_mem _ hb, hbt⟩
+
+theorem C08_I3_init (k : Nat) : Inv3 (AState.init k) :=
+  ⟨rfl, fun a t h => by simp [AState.init] at h⟩
+
+/-- one step of any op preserves I3 (given I1, which the pending-open rebroadcast on restart needs) -/
+theorem C08_step_preserves_I3 (s : AState) (op : Op) (h1 : Inv1 s) (h3 : Inv3 s) (hop : OpOK s.key op) :
+    Inv3 (step s op).1 := Inv3.step h3 h1 op hop
+
+theorem C08_I1_I3_all_histories (s : AState) (ops : List Op) (h1 : Inv1 s) (h3 : Inv3 s)
+    (hp : ∀ op ∈ ops, op.plain = true) : Inv1 (run s ops) ∧ Inv3 (run s ops) := by
+  induction ops generalizing s with
+  | nil => exact ⟨h1, h3⟩
+  | cons op ops ih =>
+    have hop := opOK_plain s.key op (hp op List.mem_cons_self)
+    exact ih _ (Inv1.step h1 op hop) (Inv3.step h3 h1 op hop) (fun o ho => hp o (List.mem_cons_of_mem _ ho))
+
+/-- **C08 / I3 for all histories**: in the effect trace of every history (user actions, chain events,
+batches, restarts anywhere) every `PublishTransaction` of a transaction is preceded by a store write of a
+record whose latest transaction it is. -/
+theorem C08_I3_all_histories (k : Nat) (ops : List Op) (hp : ∀ op ∈ ops, op.plain = true)
+    (l1 l2 : List Effect) (t : Tx) (hl : (run (AState.init k) ops).trace = l1 ++ Effect.publish t :: l2) :
+    ∃ a, Effect.write a ∈ l1 ∧ a.latestTx = some t := by
+  have h := (C08_I1_I3_all_histories _ ops (C08_inv_init k) (C08_I3_init k) hp).2.ok
+  rcases chk_spec [] _ h l1 l2 t hl with hw | hw
+  · simp at hw
+  · exact hw
+
+/-- non-vacuity: a history with a rebroadcast on restart and a published closure -/
+example :
+    let s := run (AState.init 1) [.init 100000 1200 0 1000 (some (7, 0)), .restart true none, .conf 0 1003,
+      .close 1004 9 true true, .restart true none]
+    (s.trace.filter (fun e => match e with | .publish _ => true | _ => false)).length = 3 := by decide
 
 /-- regenerated call order of `spendAccount`: sign, `UpdateAccount`, then `maybeBroadcastTx`; the multi-sig
 branch of `HandleAccountSpend` completes the batch before resuming; the funding clause writes after
